@@ -1453,6 +1453,27 @@ func (eng *Engine) runFunction(fn *ssa.Function, env *Env, args []AV) []Outcome 
 								} else {
 									parts = append(parts, "value")
 								}
+							case KStruct:
+								// a struct all of whose fields hold their zero value is the zero struct
+								zero := len(a.Flds) > 0
+								for _, fv := range a.Flds {
+									switch fv.K {
+									case KBool:
+										zero = zero && fv.B == triF
+									case KNum:
+										sv, ok := fv.single()
+										zero = zero && ok && (sv == "0" || sv == `""`)
+									case KPtr, KIface, KSlice, KMap, KFunc:
+										zero = zero && e.nilnessOf(fv) == isNil
+									default:
+										zero = false
+									}
+								}
+								if zero {
+									parts = append(parts, "zero-struct")
+								} else {
+									parts = append(parts, "value")
+								}
 							default:
 								parts = append(parts, "value")
 							}
